@@ -273,9 +273,17 @@ def new_version(data, allow_custom=None, **kwargs):
 
     else:
         new_modified = get_timestamp()
-        new_modified = _fudge_modified(
-            old_modified, new_modified, use_stix21,
-        )
+        try:
+            new_modified = _fudge_modified(
+                old_modified, new_modified, use_stix21,
+            )
+        except OverflowError:
+            # (nothing is later than the last instant a timestamp can hold)
+            raise InvalidValueError(
+                cls, 'modified',
+                "The current modified datetime is the latest there can be: "
+                "no later version is possible.",
+            )
 
         # (with the precision of the property: a dict keeps this value)
         kwargs['modified'] = parse_into_datetime(
